@@ -389,7 +389,7 @@ func (it *Interp) strEqV(a, b Str) *Term {
 func (it *Interp) strLessV(a, b Str) *Term {
 	a, b = a.force(), b.force()
 	if a.atom != nil || b.atom != nil {
-		return intCmp("<", it.rankOf(a), it.rankOf(b))
+		return bvCmp("bvult", it.rankOf(a), it.rankOf(b))
 	}
 	return strLess(a, b)
 }
@@ -958,6 +958,19 @@ func (it *Interp) callBuiltin(caller *frame, callpos token.Pos, fn *ssa.Builtin,
 				old := x.entries
 				it.ex.journal = append(it.ex.journal, undoEntry{fn: func() { x.entries = old }})
 				x.entries = nil
+			}
+		case Slice:
+			var et types.Type
+			if call, ok := caller.curInstr.(ssa.CallInstruction); ok {
+				if st, ok := call.Common().Args[0].Type().Underlying().(*types.Slice); ok {
+					et = st.Elem()
+				}
+			}
+			if et == nil {
+				panic(unsupported("clear of slice: element type unknown"))
+			}
+			for i := range x.a {
+				it.storeAt(&x.a[i], zero(et))
 			}
 		default:
 			panic(unsupported("clear of non-map"))
